@@ -457,3 +457,139 @@ func RuleKTextIdentity(c *core.Ctx) {
 	}
 	c.Floor(rule, 2)
 }
+
+// RuleKScopeFirst — the scope from which a parse function takes its node's
+// range is opened before the function consumes anything. A parse function's
+// *top scope* is the Scope variable that is assigned, in the entry block and
+// before any consuming call, the result of Scanner.Scope(); every value ever
+// assigned to that variable must be such a scope: the result of a Scope()
+// call that no consuming call of the function can reach. A top scope
+// re-assigned later (for instance to a scope opened after the annotations
+// were read) leaves consumed text outside every node: the tree no longer
+// covers the text, and the gaps between directives are no longer blank.
+func RuleKScopeFirst(c *core.Ctx) {
+	const rule = "K-scope-first"
+	p := c.P
+	pr := progressOf(c)
+	scopeFn := p.Func(pkgScanner, "Scanner.Scope")
+	scopeT := p.NamedType(pkgScanner, "Scope")
+	if scopeFn == nil || scopeT == nil || pr.advance == nil {
+		c.Anchor(rule, "scanner.Scanner.Scope / scanner.Scope")
+		return
+	}
+	isScopeCall := func(v ssa.Value) *ssa.Call {
+		call, ok := v.(*ssa.Call)
+		if !ok {
+			return nil
+		}
+		if callee := call.Call.StaticCallee(); callee != nil && (callee == scopeFn || (core.PkgPathOf(callee) == pkgParser && callee.Name() == "Scope")) {
+			return call
+		}
+		return nil
+	}
+	consuming := func(ins ssa.Instruction) bool {
+		call, ok := ins.(*ssa.Call)
+		if !ok {
+			return false
+		}
+		callee := call.Call.StaticCallee()
+		if callee == nil {
+			return false
+		}
+		if callee == pr.advance {
+			return true
+		}
+		return pr.scope[callee] && pr.summary[callee] != pNone
+	}
+	n := 0
+	for _, fn := range p.SrcFuncs() {
+		if core.PkgPathOf(fn) != pkgParser || fn.Blocks == nil {
+			continue
+		}
+		// consuming calls of fn
+		var cons []ssa.Instruction
+		core.EachInstr(fn, func(ins ssa.Instruction) {
+			if consuming(ins) {
+				cons = append(cons, ins)
+			}
+		})
+		reachedByConsumption := func(at ssa.Instruction) ssa.Instruction {
+			for _, cc := range cons {
+				if cc.Block() == at.Block() {
+					if core.InstrIndex(cc) < core.InstrIndex(at) {
+						return cc
+					}
+					// a later call in the same block reaches `at` only around a loop
+					for _, succ := range cc.Block().Succs {
+						if core.BlockReaches(succ, at.Block(), nil) {
+							return cc
+						}
+					}
+					continue
+				}
+				if core.BlockReaches(cc.Block(), at.Block(), nil) {
+					return cc
+				}
+			}
+			return nil
+		}
+		for _, ins := range fn.Blocks[0].Instrs {
+			al, ok := ins.(*ssa.Alloc)
+			if !ok || !isNamed(al.Type().Underlying().(*types.Pointer).Elem(), scopeT) {
+				continue
+			}
+			stores := core.StoresTo(al)
+			// top scope: a store in the entry block of a Scope() result, before any consuming call
+			top := false
+			for _, st := range stores {
+				if st.Block() == fn.Blocks[0] && isScopeCall(st.Val) != nil && reachedByConsumption(isScopeCall(st.Val)) == nil {
+					top = true
+				}
+			}
+			if !top {
+				continue
+			}
+			n++
+			key := fmt.Sprintf("%s:top scope %s is opened before anything is consumed", core.FuncName(fn), al.Comment)
+			bad := ""
+			var check func(v ssa.Value, depth int)
+			check = func(v ssa.Value, depth int) {
+				if bad != "" || depth > 4 {
+					return
+				}
+				if call := isScopeCall(v); call != nil {
+					if cc := reachedByConsumption(call); cc != nil {
+						bad = fmt.Sprintf("it is assigned a scope opened at %s, after the consuming call %s", p.Pos(call.Pos()), describeValue(p, cc.(ssa.Value)))
+					}
+					return
+				}
+				switch x := v.(type) {
+				case *ssa.UnOp: // copy of another scope variable
+					if other, ok := x.X.(*ssa.Alloc); ok && x.Op == token.MUL {
+						for _, st := range core.StoresTo(other) {
+							check(st.Val, depth+1)
+						}
+						return
+					}
+				case *ssa.Phi:
+					for _, e := range x.Edges {
+						check(e, depth+1)
+					}
+					return
+				case *ssa.Parameter:
+					return // the caller's scope
+				}
+				bad = "it is assigned " + describeValue(p, v)
+			}
+			for _, st := range stores {
+				check(st.Val, 0)
+			}
+			if bad == "" {
+				c.Ob(rule, key, al.Pos(), core.FuncName(fn), core.Discharged, "every value assigned to it is a Scope() result that no consuming call reaches")
+			} else {
+				c.Ob(rule, key, al.Pos(), core.FuncName(fn), core.Violated, "the scope that yields this function's node range does not start where the function starts consuming: "+bad+"; text consumed before that lies outside the node")
+			}
+		}
+	}
+	c.Floor(rule, 10)
+}
